@@ -68,6 +68,8 @@ class C07(Prop):
             case['useed'] = rng.randrange(1 << 30)
         if kind.startswith('dt'):
             case['data'] = lang.gen_trace(rng, names, rng.randint(1, 16))
+            if kind == 'dt_on' and rng.random() < 0.3:
+                case['prelude'] = lang.gen_trace(rng, names, rng.randint(1, 10))   # an earlier run, then reset()
         else:
             sig = lang.gen_signals(rng, names)
             if kind == 'ct_on':
@@ -78,12 +80,12 @@ class C07(Prop):
         return case
 
     # -- one execution of the real monitor: list of (time, value) claims ------------------------------
-    def run_real(self, kind, text, names, data=None, sig=None):
+    def run_real(self, kind, text, names, data=None, sig=None, prelude=None):
         if kind == 'dt_off':
             res = drive.values(drive.dt_offline(text, names, data))
             return [(t, v) for t, v in enumerate(res)]
         if kind == 'dt_on':
-            res = drive.dt_online(text, names, data)
+            res = drive.dt_online(text, names, data, prelude=prelude)
             return [(t, v) for t, v in enumerate(res)]
         if kind == 'ct_off':
             out = drive.ct_offline(text, names, sig)
@@ -118,7 +120,9 @@ class C07(Prop):
             n = len(data[names[0]])
             try:
                 sat = ref_bool.sat_discrete(f, data, n)
-                claims = self.run_real(kind, text, names, data=data)
+                claims = self.run_real(kind, text, names, data=data, prelude=case.get('prelude'))
+                if case.get('prelude'):
+                    v.info['class:after-reset'] = 1
             except refd.Undefined:
                 v.skip = 'reference undefined (domain error)'
                 return v
